@@ -370,12 +370,14 @@ PROPS = {
               'value of the constructor; hence (lemma) for every returned constructor and each of its values v, specialize keeps exactly the arms whose head '
               'matches v. (3) lowering: the NumUnsigned / NumSigned arms of TypedPattern::compile return a wire that is true exactly when the scrutinee value '
               'equals the literal, the Unsigned- / SignedInclusiveRange arms exactly when min <= value <= max (signed or unsigned comparison as the type '
-              'demands). (4) first match: the Match arm of TypedExpr::compile (unit branches; clause patterns and bodies compiled by opaque recursive '
+              'demands); the Tuple arm (structural induction: the field patterns are lowered by opaque recursive calls whose contract is the induction '
+              'hypothesis) returns a wire that is true exactly when every field pattern matches its slice of the value, field k occupying the wires '
+              'from the sum of the sizes of the fields before it. (4) first match: the Match arm of TypedExpr::compile (unit branches; clause patterns and bodies compiled by opaque recursive '
               'calls) returns, for every input, the result wires of the first clause whose match wire is true. (5) structured constructors: the True / False, '
               'Tuple, Struct, Variant and Array arms of specialize are contracted structurally - a variable head becomes one wildcard per field type, a '
               'pattern of the same constructor (same struct / variant name) is replaced by its sub-patterns, in both cases followed by the rest of the '
               'row, every other head drops the row. NOT under contract: the usefulness recursion (usefulness, split_ctor) that composes these steps, the '
-              'lowering of tuple / struct / enum patterns, parsing: as the labelled bounded stand-in, random and directed arm lists over 12 '
+              'lowering of struct / enum patterns, parsing: as the labelled bounded stand-in, random and directed arm lists over 12 '
               'scrutinee types (incl. bounds outside the type, empty and inverted ranges) are decided on the real checker and compared with brute-force '
               'enumeration (accepted exactly when every value is matched; every accepted match compiled and evaluated against the first matching arm).',
         note='Trusted: <[T]>::sort_unstable returns a sorted permutation and Vec::dedup keeps the same elements and makes a sorted vector strictly increasing '
@@ -390,6 +392,6 @@ PROPS = {
               'literal and range patterns exact, specialization by structured constructors, first matching clause decides (proved); usefulness recursion and lowering of structured patterns by bounded differential',
         unverified=['usefulness, split_ctor (the recursion over pattern stacks that composes splitting and specialization): bounded differential only',
                     'Pattern::type_check (that every integer pattern is passed to expect_pattern_in_range), range pattern parsing',
-                    'tuple / struct / enum arms of TypedPattern::compile, bindings of the selected arm (environment merge mux_envs): bounded differential only'],
+                    'struct / enum arms of TypedPattern::compile (HashMap of field patterns; enum tag comparison), bindings of the selected arm (environment merge mux_envs): bounded differential only'],
     ),
 }
